@@ -110,7 +110,7 @@ Proof. vm_compute. split; reflexivity. Qed.
 
 Example C11_calc_ex_never :
   let nv := fun id => Nat.eqb id 0 in
-  let e := Bin BWhenAll (Bin BStopWhen (LeafN 1) (Leaf 0)) JustDone in
+  let e := Bin BWhenAll JustDone (Bin BStopWhen (LeafN 1) (Leaf 0)) in   (* the never-declaring child is started last *)
   blockingN nv e = BNever /\
   r_roots (exec e false [EvStop]) = O /\ r_roots (exec e false [EvStop; EvLeaf 0 (OVal 1)]) = 1%nat.
 Proof. vm_compute. repeat split. Qed.
